@@ -81,6 +81,20 @@ def regenerate(log):
     reg = os.path.join(BUILD, "registry.json")
     if not os.path.exists(reg):
         subprocess.check_call([MAIN_HOST, os.path.join(HARNESS, "ref_registry.py"), reg], cwd=HARNESS)
+    # static effect facts (ASTs under /repo/xdis)
+    import effects
+    import gen_lean
+    fl = effects.facts({"load_module"})
+    fd = effects.facts({"disassemble_file", "disco", "disco_loop", "disco_loop_asm_format"})
+    eff = [gen_lean.HDR, "namespace XV.Gen\n",
+           "/-- exec/eval/compile/__import__/open-for-write/os.* call sites reachable from load_module -/\n",
+           "def loadModuleDanger : List String := %s\n" % gen_lean.lstrs(fl["danger"]),
+           "def loadModuleReachable : Nat := %d\n" % fl["reachable"],
+           "/-- print()/sys.stdout.write() sites (not directed at an explicit stream) reachable from disassemble_file -/\n",
+           "def disasmStdoutSites : List String := %s\n" % gen_lean.lstrs(fd["outs"]),
+           "def disasmReachable : Nat := %d\n" % fd["reachable"],
+           "end XV.Gen\n"]
+    gen_lean.write_if_changed(os.path.join(LEAN, "XV", "Gen", "Effects.lean"), "".join(eff))
     p = run([MAIN_HOST, os.path.join(HARNESS, "gen_lean.py"), tj, refs, reg, os.path.join(LEAN, "XV", "Gen")])
     if p.returncode != 0:
         return None, "gen_lean failed: " + p.stdout[-400:]
